@@ -71,7 +71,7 @@ type holder struct {
 	// conn
 	Dir   network.Direction
 	FD    bool
-	EP    int // endpoint index
+	EP    int  // endpoint index
 	Allow bool // accounted in the allow-listed scope set
 	// conn + stream
 	Peer int // -1: none
@@ -129,11 +129,11 @@ func (h *holder) selfScope() string {
 	return h.Scope
 }
 
-func peerScope(p int) string       { return fmt.Sprintf("peer/%d", p) }
-func protoScope(x int) string      { return fmt.Sprintf("proto/%d", x) }
-func svcScope(s int) string        { return fmt.Sprintf("svc/%d", s) }
+func peerScope(p int) string         { return fmt.Sprintf("peer/%d", p) }
+func protoScope(x int) string        { return fmt.Sprintf("proto/%d", x) }
+func svcScope(s int) string          { return fmt.Sprintf("svc/%d", s) }
 func protoPeerScope(x, p int) string { return fmt.Sprintf("proto/%d/peer/%d", x, p) }
-func svcPeerScope(s, p int) string { return fmt.Sprintf("svc/%d/peer/%d", s, p) }
+func svcPeerScope(s, p int) string   { return fmt.Sprintf("svc/%d/peer/%d", s, p) }
 
 // scopeKind strips the indices: the structural name used in signatures and evidence classes.
 func scopeKind(s string) string {
